@@ -255,7 +255,7 @@ def run_resume(ctx: Ctx):
     n = ctx.n(120, 2500)
     jobs = []
     for i in range(n):
-        cfg = sdl.gen_cfg(ctx.rng)
+        cfg = sdl.gen_cfg(ctx.rng, rand_samplers=0.1)
         seed = ctx.rng.randrange(1 << 30)
         if i < 2:
             ctx.sample({"leg": "ko_resume", "cfg": cfg})
